@@ -1176,3 +1176,166 @@ def shutdown_ctx(sim, ctxs):
                 sim.anomaly("shutdown-timeout", "")
     sim.loop.run_until_complete(go())
     sim.run()
+
+
+# ------------------------------------------------------------------ workload Bs: scripted client -> real server
+
+
+def run_bs(sim, scn, chunk, wid, nworld):
+    import aiocoap
+
+    loop = sim.loop
+    sn = SimStreamNet(sim, prefix=wid + ":")
+    loop.streamnet = sn
+    sn.policy_for = policy_fn(chunk)
+    ip = "fd00:%d::1" % nworld
+    handler_log = []
+    tap = []
+    state = {}
+    site = make_site(sim, handler_log)
+    peer = TcpPeer(sim, wid + ":peer")
+
+    async def setup():
+        srv = await aiocoap.Context.create_server_context(site, bind=(ip, 5683), transports=["tcpserver"], loggername="coap-server")
+        order_tcp_pools(srv)
+        install_tap(srv, tap, sim, closing_of=lambda msg: state["tr"].is_closing())
+        await peer.connect(ip, 5683)
+        return srv
+
+    srv = loop.run_until_complete(setup())
+    conn = sn.conns[0]
+    state["tr"] = conn.s
+    # the peer writes its frames; frames without "gap" join the previous write burst
+    t = loop.now
+    burst = bytearray()
+    plan = []
+    for f in scn["ops"]:
+        if f.get("gap") and burst:
+            plan.append((t, bytes(burst)))
+            burst = bytearray()
+        if f.get("gap"):
+            t += f["gap"]
+        burst += frame_bytes(f)
+    if burst:
+        plan.append((t, bytes(burst)))
+    for (when, data) in plan:
+        loop.at(when, peer.write, data)
+    sim.run()
+    stream = bytes(conn.c2s.stream)
+    ob = endpoint_observation(sim, tap, conn.s2c.stream, conn.s)
+    delivered_all = conn.c2s.delivered == len(stream) or conn.s.is_closing()
+    if not delivered_all:
+        raise RuntimeError("peer stream not delivered: %d of %d" % (conn.c2s.delivered, len(stream)))
+
+    def extra(O, stray):
+        v = []
+        expected = {}
+        for d in O.dispatch:
+            if d["code"] >> 5 == 0 and not d.get("optional") and rc.opts(d, rc.URI_PATH) == [b"e"]:
+                expected[d["token"]] = dict(planned_response(d), token=d["token"])
+        lenient = {d["token"] for d in O.dispatch if d.get("optional") or rc.opts(d, rc.URI_PATH) != [b"e"]}
+        seen = {}
+        for m in ob["out"]:
+            cls = m["code"] >> 5
+            if m["code"] in (rc.CSM, rc.PONG, rc.ABORT):
+                continue
+            if cls in (2, 4, 5):
+                if m["token"] in lenient and m["token"] not in expected:
+                    continue
+                if m["token"] in stray:
+                    continue  # already reported as a dispatch violation
+                if m["token"] not in expected:
+                    v.append(("C15/unexpected-output", {"written": brief(m)}))
+                    continue
+                seen[m["token"]] = seen.get(m["token"], 0) + 1
+                if seen[m["token"]] > 1:
+                    v.append(("C15/duplicate-response", {"written": brief(m)}))
+                elif msg_key(m) != msg_key(expected[m["token"]]):
+                    v.append(("C15/response-differs", {"written": brief(m), "handler_returned": brief(expected[m["token"]])}))
+            else:
+                v.append(("C15/unexpected-output", {"written": brief(m)}))
+        if O.end == "open":
+            miss = [t for t in expected if t not in seen]
+            if miss:
+                v.append(("C15/response-missing", {"tokens": [t.hex() for t in miss[:5]]}))
+            want = [strip_path(d) for d in O.dispatch if not d.get("optional") and d["code"] >> 5 == 0 and rc.opts(d, rc.URI_PATH) == [b"e"]]
+            got = [h["m"] for h in handler_log]
+            if [msg_key(m) for m in want] != [msg_key(m) for m in got]:
+                if len(want) != len(got):
+                    v.append(("C15/handler-invocations", {"expected": len(want), "seen": len(got)}))
+                else:
+                    k = [i for i in range(len(want)) if msg_key(want[i]) != msg_key(got[i])][0]
+                    v.append(("C15/handler-saw-different-message", {"sent": brief(want[k]), "seen": brief(got[k])}))
+        return v
+
+    O, viols = judge_branches(stream, ob, extra)
+    for kind, detail in viols:
+        sim.violation(kind, dict(detail, world=wid, workload="Bs"))
+    if ob["tap_late"]:
+        sim.anomaly("dispatch-after-close", "%d message(s) handed on after the endpoint closed the connection" % len(ob["tap_late"]))
+    count_outcome_probes(sim, O)
+    len_probes(sim, ob["frames"])
+    sim.log("app", "bs-outcome", wid, O.end, O.why, len(ob["tap"]), ob["closing"], ob["close_reason"])
+    # end of the world: the peer goes away, the server shuts down
+    peer.close()
+    sim.run()
+    shutdown_ctx(sim, [srv])
+    obs = {"end": [O.end, O.why] if O.end != "open" or not ob["closing"] else ["closed", None],
+           "aborted": any(m["code"] == rc.ABORT for m in ob["out"]), "closing": ob["closing"],
+           "tap": [hashlib.sha256(repr(msg_key(m)).encode()).hexdigest()[:12] for m in ob["tap"]],
+           "pongs": sorted(m["token"].hex() for m in ob["out"] if m["code"] == rc.PONG),
+           "handler": ([hashlib.sha256(repr(msg_key(h["m"])).encode()).hexdigest()[:12] for h in handler_log] if O.end == "open" else None)}
+    return {"obs": obs, "sn": sn, "kinds": [f["k"] for f in scn["ops"]], "end": O.end}
+
+
+# ------------------------------------------------------------------ the run
+
+
+def is_whole(chunk):
+    return all(((chunk or {}).get(d) or WHOLE).get("mode", "whole") == "whole" for d in ("c2s", "s2c"))
+
+
+def execute(sim, scn):
+    w = scn["w"]
+    runner = {"A": run_a, "Bs": run_bs, "Bc": run_bc}[w]
+    chunk = scn.get("chunk") or {}
+    first = runner(sim, scn, chunk, "v", 1)
+    results = [first]
+    if not is_whole(chunk) and not scn.get("fault"):
+        second = runner(sim, dict(scn, fault=None), {"c2s": WHOLE, "s2c": WHOLE}, "b", 2)
+        results.append(second)
+        sim.probe("twin_compared")
+        if first["obs"] != second["obs"]:
+            diff = sorted(k for k in set(first["obs"]) | set(second["obs"]) if first["obs"].get(k) != second["obs"].get(k))
+            sim.violation("C15/chunking-changes-behaviour", {"differs": diff, "chunked": {k: first["obs"].get(k) for k in diff},
+                                                             "whole": {k: second["obs"].get(k) for k in diff},
+                                                             "chunk": chunk})
+    faults = {}
+    chunks = 0
+    nbytes = 0
+    for res in results:
+        for k, n in res["sn"].extra_faults().items():
+            faults[k] = faults.get(k, 0) + n
+        for c in res["sn"].conns:
+            for d in ("c2s", "s2c"):
+                chunks += len(c.pipe(d).chunks)
+                nbytes += c.pipe(d).written
+    sim.extra_faults = faults
+    sim.probe("chunks", chunks)
+    sim.probe("stream_bytes", nbytes)
+    if faults.get("reset"):
+        sim.probe("reset")
+    if scn.get("sys"):
+        sim.probe("sys_runs")
+        inside = scn.get("ncuts", 0)
+        sim.probe("cut_points", inside)
+        if scn["sys"] == "bytes":
+            sim.probe("bytewise")
+    elif (chunk.get("c2s") or {}).get("mode") == "bytes" or (chunk.get("s2c") or {}).get("mode") == "bytes":
+        sim.probe("bytewise")
+    h = hashlib.blake2b(digest_size=8)
+    h.update(repr((w, first["kinds"], (chunk.get("c2s") or WHOLE).get("mode"), (chunk.get("s2c") or WHOLE).get("mode"),
+                   first["end"], min(faults.get("cut", 0), 20), bool(scn.get("fault")))).encode())
+    sim.signature = h.hexdigest()
+    for (t, m, en, es) in sim.loop_exceptions():
+        sim.anomaly("loop-exception", "%s %s %s" % (m, en, es))
